@@ -656,8 +656,41 @@ class Result:
         self.queries.append(dict(label=label, result=result, seconds=round(seconds, 3), model=model, solver=solver))
 
 
+def _cvc5_opinion(solver, timeout_s=20):
+    """second opinion on the same SMT-LIB text from the cvc5 binary on PATH: 'sat' / 'unsat' / None (no answer)"""
+    import os
+    import shutil
+    import subprocess
+    import tempfile
+    exe = shutil.which("cvc5")
+    if exe is None:
+        return None
+    text = "(set-logic ALL)\n" + solver.to_smt2()
+    fd, path = tempfile.mkstemp(suffix=".smt2", dir="/var/tmp")
+    try:
+        with os.fdopen(fd, "w") as f:
+            f.write(text)
+        p = subprocess.run([exe, "--lang", "smt2", "--tlimit", str(timeout_s * 1000), path], capture_output=True, text=True, timeout=timeout_s + 5)
+        out = p.stdout.strip().splitlines()
+        if out and out[0] in ("sat", "unsat") and "(error" not in p.stdout:
+            return out[0]
+        return None
+    except Exception:
+        return None
+    finally:
+        try:
+            os.remove(path)
+        except OSError:
+            pass
+
+
+class SolverDisagreement(BaseException):
+    pass
+
+
 def prove(label, hypothesis, goal, res, timeout_ms=20000, cross_check=True):
-    """valid(hypothesis -> goal)?  returns ('proved', None) / ('refuted', model dict) / ('unknown', None)"""
+    """valid(hypothesis -> goal)?  returns ('proved', None) / ('refuted', model dict) / ('unknown', None).
+    Every z3 verdict is compared with cvc5's on the same SMT-LIB text; a disagreement is a harness error."""
     import time
     s = z3.Solver()
     s.set("timeout", timeout_ms)
@@ -666,6 +699,11 @@ def prove(label, hypothesis, goal, res, timeout_ms=20000, cross_check=True):
     t0 = time.time()
     r = str(s.check())
     dt = time.time() - t0
+    if cross_check and r in ("sat", "unsat"):
+        other = _cvc5_opinion(s)
+        res.cross_checked = getattr(res, "cross_checked", 0) + (1 if other else 0)
+        if other is not None and other != r:
+            raise SolverDisagreement("z3 says %s, cvc5 says %s on obligation '%s'" % (r, other, label))
     if r == "unsat":
         res.add(label, "unsat", dt)
         return "proved", None
